@@ -634,18 +634,25 @@ def run_property(prop, tier, jobs, meta, only=None):
     known = load_known()
     results = []
     byname = {j.name: j for j in jobs}
-    # longest first for better packing
-    order = sorted(jobs, key=lambda j: -getattr(j, "timeout", 0))
-    with cf.ThreadPoolExecutor(max_workers=NJOBS) as ex:
-        futs = {ex.submit(run_job, j): j for j in order}
-        ndone = 0
-        for fut in cf.as_completed(futs):
-            r = fut.result()
-            results.append(r)
-            ndone += 1
-            if r["status"] != "PASS" or os.environ.get("VERIF_VERBOSE"):
-                sys.stderr.write("[%d/%d] %s %s %.1fs %s\n" % (ndone, len(jobs), r["status"], r["name"], r["wall_s"],
-                                                              r.get("why", "") or r["failed"][:2]))
+    # memory-hungry queries (thousands of unwindings: several GB each) run in a second phase with a quarter of the workers,
+    # so that they do not push the machine into swapping / the OOM killer while 16 ordinary queries are in flight
+    def is_heavy(j):
+        return getattr(j, "heavy", False) or (j.kind == "cbmc" and getattr(j, "unwind", 0) >= 1000)
+
+    ndone = 0
+    for phase, workers in ((False, NJOBS), (True, max(2, NJOBS // 4))):
+        order = sorted([j for j in jobs if is_heavy(j) == phase], key=lambda j: -getattr(j, "timeout", 0))
+        if not order:
+            continue
+        with cf.ThreadPoolExecutor(max_workers=workers) as ex:
+            futs = {ex.submit(run_job, j): j for j in order}
+            for fut in cf.as_completed(futs):
+                r = fut.result()
+                results.append(r)
+                ndone += 1
+                if r["status"] != "PASS" or os.environ.get("VERIF_VERBOSE"):
+                    sys.stderr.write("[%d/%d] %s %s %.1fs %s\n" % (ndone, len(jobs), r["status"], r["name"], r["wall_s"],
+                                                                  r.get("why", "") or r["failed"][:2]))
     violations = []
     nconfirm = 0
     known_hits = []
